@@ -13,7 +13,7 @@ if [ "$1" = "--refresh" ]; then
   (cd "$GOLD" && ./setup >/tmp/vgold.setup.log 2>&1) || { echo "golden setup failed (see /tmp/vgold.setup.log)"; exit 2; }
   echo "golden at $GOLD = $(git -C /verif rev-parse --short HEAD)"; exit 0
 fi
-patch="$1"; shift
+patch="$1"; shift; [ "$patch" = none ] || patch=$(readlink -f "$patch")
 [ -d "$GOLD/lean/.lake" ] || { echo "no golden copy: run mutpar.sh --refresh"; exit 2; }
 wt=$(mktemp -d /tmp/mw.XXXXXX); vc=$(mktemp -d /tmp/mv.XXXXXX)
 trap 'git -C /repo worktree remove --force "$wt" 2>/dev/null; rm -rf "$wt" "$vc"' EXIT
